@@ -182,6 +182,7 @@ def run_estimator(desc):
     except Exception:
         has_pf = False
     applied = []          # set_params calls made on the used object (replayed on the fresh reference object)
+    last_fit_X = None
     for step in range(int(rng.randint(2, 7))):
         op = ["fit", "partial_fit", "predict", "set_params", "set_params"][rng.randint(5)] if nfits else "fit"
         if op == "partial_fit" and not has_pf:
@@ -197,6 +198,8 @@ def run_estimator(desc):
                 ops.append(("set_params", sorted(change)))
                 continue
         X, y = _data(rng, kind, multi)
+        if op == "fit":
+            last_fit_X = X
         try:
             steps.begin()
             if op == "fit" and rng.rand() < 0.35 and _takes_weights(est):
@@ -235,6 +238,12 @@ def run_estimator(desc):
     writes.reset()
     # ---- refit on used object vs. fresh object built by the same constructor call
     XB, yB = _data(rng, kind, multi)
+    if last_fit_X is not None and rng.rand() < 0.4:
+        # the very same samples as in the last fit, with other labels (and possibly other parameters since): nothing
+        # computed from X in the earlier fit may be reused
+        XB = last_fit_X.copy()
+        _, yB = _data(rng, kind, multi, n=len(XB))
+        ops.append(("final-fit-on-the-X-of-the-last-fit", len(XB)))
     Q = np.vstack([XB, np.round(rng.randn(4, 2), 3)])
     try:
         steps.begin()
